@@ -66,6 +66,7 @@ def run(ctx):
     out = P.run_property(ctx, MASK, monitor, 'oom-order', [
         ('G-exec-over', 350, 6000, dict(overcommit=True, p_bad=0.05)),
         ('G-exec-burst', 250, 4000, dict(burst=True)),
+        ('G-exec-waves', 80, 1500, dict(waves=True)),
     ], nontrivial=lambda run: any(
         any(x['err'] and e['demand'].get(x['cid']) is not None
             and F(e['demand'][x['cid']]) <= F(run.info[x['cid']]['ram']) for x in e['results'])
